@@ -66,6 +66,7 @@ MIN = {'quick': {'distinct': 20000,
                             'parenthesis': 40,
                             'cross-format agreement': 200,
                             'sweep: ill-formed group rejected': 20000,
+                            'file with rootless TIGER-XML sentences': 50,
                             'sweep: well-formed group decoded': 100,
                             'sweep: unterminated group rejected': 5000}},
        'thorough': {'distinct': 500000,
@@ -627,6 +628,74 @@ class FakeIO(object):
         return getattr(self.real, name)
 
 
+def rootless(ctx, rng, i, case=None):
+    """TIGER-XML files in which some sentences have several nodes without a
+    parent (the root node is missing): whatever the reader does with those -
+    skip them, as the unchanged reader does, or read them - every tree it
+    yields is well formed, and the well-formed sentences of the file are all
+    there, in order, exactly as encoded."""
+    if case is None:
+        bank = make_bank(rng, 'tigerxml', False, '-', quick=True)
+        bad = [sp['sid'] for sp in bank
+               if len(sp['root']['c']) >= 2 and rng.random() < 0.6]
+        case = {'kind': 'rootless', 'bank': bank, 'bad': bad,
+                'opts': rng.choice([{}, {'quiet': True}]),
+                'shuffle': rng.random() < 0.5, 'layout_seed': i}
+    Cur.ctx, Cur.case = ctx, case
+    bank, bad = case['bank'], set(case['bad'])
+    text = codec.tigerxml_encode(
+        bank, ctx.rng('layout', case['layout_seed']) if case['shuffle']
+        else None, headless=bad)
+    path = common.write(ctx.path('.rootless.xml'), text)
+    trees, exc, out, err = read_all(ctx, 'tigerxml', path, 'utf-8',
+                                    case['opts'])
+    if exc is not None:
+        _fail('tigerxml-raises-on-file-with-rootless-sentence', '%r | file %r'
+              % (exc, text[:300]))
+        return
+    good = [sp for sp in bank if sp['sid'] not in bad]
+    by_sid = dict((sp['sid'], sp) for sp in bank)
+    seen = []
+    for t in trees:
+        defects, got = model.snapshot(t)
+        if defects:
+            _fail('tigerxml-yields-ill-formed-tree', 'sentence %r (%s): %s'
+                  % (t.data.get('sid'), 'several parentless nodes in the file'
+                     if t.data.get('sid') in bad else 'well-formed in the '
+                     'file', '; '.join(defects[:3])))
+            return
+        sid = t.data.get('sid')
+        if sid not in by_sid:
+            _fail('tigerxml-sentence-id', 'tree with id %r, file has %r'
+                  % (sid, sorted(by_sid)))
+            return
+        exp = model.from_spec(by_sid[sid]['root'])
+        if sid in bad:
+            # read after all: at least the sentence is the sentence
+            if [(x.word, x.label) for x in got.toks()] != \
+                    [(x.word, x.label) for x in exp.toks()]:
+                _fail('tigerxml-rootless-sentence-tokens', 'sentence %r: '
+                      'tokens %r' % (sid, [x.word for x in got.toks()][:8]))
+                return
+            ctx.stratum('rootless sentence read')
+            continue
+        seen.append(sid)
+        diff = compare_tree(got, exp, 'tigerxml', case['opts'], '-', False)
+        if diff:
+            _fail('tigerxml-tree-differs', 'sentence %r next to a rootless '
+                  'one: %s' % (sid, diff))
+            return
+    if seen != [sp['sid'] for sp in good]:
+        _fail('tigerxml-sentence-count', 'well-formed sentences %r, read %r '
+              '(rootless: %r)' % ([sp['sid'] for sp in good], seen,
+                                  sorted(bad)))
+        return
+    if bad:
+        ctx.stratum('file with rootless TIGER-XML sentences')
+    ctx.case(['rootless', sorted(bad), [model.canon(model.from_spec(
+        sp['root']), 'w') for sp in bank]], nontrivial=bool(bad))
+
+
 def render(classes):
     out = []
     k = 0
@@ -901,6 +970,8 @@ def shard(ctx):
                             case['bank'][0]['root']), 'w')}, 4)
     for i in ctx.indices(ctx.pick(300, 30000)):
         cross_format(ctx, ctx.rng('cross', i))
+    for i in ctx.indices(ctx.pick(300, 20000)):
+        rootless(ctx, ctx.rng('rootless', i), i)
     # ---- (B) token-class sweep ---------------------------------------------------------------
     K = ctx.pick(9, 12)
     fake = FakeIO(R.treeinput.io)
@@ -932,6 +1003,8 @@ def replay(ctx, case):
     pr = AutomatonProbe(R, ctx)
     if case['kind'] == 'bank':
         run_case(ctx, case, pr if pr.ok else None)
+    elif case['kind'] == 'rootless':
+        rootless(ctx, None, 0, case)
     elif case['kind'] == 'seq':
         fake = FakeIO(R.treeinput.io)
         R.treeinput.io = fake
